@@ -23,7 +23,7 @@ RULE = ("histories of parse requests on ONE DefaultArgsParser.  Pool of requests
         "requests of which >= 1 sets an option; distinct by history")
 TRUSTED = ["'does not alter the list / raw arguments / format it was handed' is about Python aliasing: carried by snapshot comparison (testing)",
            "harness/translate_c05.py: the model's parse starts from empty scratch maps because the source of DefaultArgsParser.parse "
-           "assigns fresh OrderedDicts to self._arguments and self._options before anything else (AST check, re-run at every bin/setup and check)"]
+           "assigns fresh OrderedDicts to self._arguments and self._options before anything else (AST check, re-run by every C05 check)"]
 ASSUMPTIONS = ["exhaustive to length 2 (quick) / 3 over the 41 original requests (thorough), not the 6 of the quantifier; lengths 3..6 are sampled"]
 
 EXTRA = ["zz"]
